@@ -57,6 +57,7 @@ type pgen struct {
 	stat   []string // operands with a value known at compile time (package variables)
 	consts []cdef
 	calls  []string // call templates with %s for the argument
+	ncalls int      // calls emitted by leaf (bounded: callees are inlined)
 	mults  int
 	sb     strings.Builder
 }
@@ -108,7 +109,8 @@ func (g *pgen) leaf() string {
 	case 6, 7, 8:
 		return g.constRef()
 	default:
-		if len(g.calls) > 0 {
+		if len(g.calls) > 0 && g.ncalls < 1 {
+			g.ncalls++
 			c := rapid.SampledFrom(g.calls).Draw(g.t, "call")
 			return fmt.Sprintf(c, g.operand())
 		}
@@ -373,7 +375,7 @@ func drawMultiProgram(t *rapid.T) (string, []File, []string) {
 
 		// Package-level variables.
 		var vars strings.Builder
-		g := &pgen{t: t, ty: ty, consts: consts}
+		g := &pgen{t: t, ty: ty, consts: consts, mults: 2}
 		nvars := rapid.IntRange(0, 3).Draw(t, "nvars")
 		if i < 2 && nvars == 0 {
 			nvars = 1
